@@ -118,11 +118,11 @@ def cond(rng, col):
     if r < 0.40:
         return ('re', rng.choice(PATTERNS), re.I if rng.random() < 0.15 else 0)
     if r < 0.62:
-        return ('eq', rng.choice([v for v in VALUES if v is not None] + [99, 'q', INF, -INF]))
+        return ('eq', rng.choice([v for v in VALUES if v is not None] + [99, 'q', INF, -INF, True, False]))      # True == 1, False == 0
     q = rng.random()
     if q < 0.2:
         return ('in', [])
-    pool = vals + [None, 99, 'q', INF, -INF] + [v for v in VALUES if v is not None]
+    pool = vals + [None, 99, 'q', INF, -INF, True, False] + [v for v in VALUES if v is not None]
     vs = [rng.choice(pool) for _ in range(rng.choice([1, 2, 3]))]
     if q < 0.5:
         vs = list(dict.fromkeys([v for v in col if not is_nan(v)]))      # every non-NaN value: matches all but NaN rows
